@@ -52,6 +52,8 @@ def run_case(case):
         np2 = f.getLayout('v_parallel').nprocs[:2]
         h = getLayoutHandler(comm, lp, np2, eta[:3])
         rho = Grid(eta[:3], [None] * 3, h, 'v_parallel_2d', comm, dtype=dtype)
+        # several finders on the same v basis (e.g. one per species): building a second one must not disturb the first
+        dens_first = DensityFinder(6, f.getSpline(3), eta, c)
         dens = DensityFinder(6, f.getSpline(3), eta, c)
         S = refspline.RefSpace(f.getSpline(3))
         w = np.array([float(x) for x in S.weights_exact()])
@@ -78,11 +80,12 @@ def run_case(case):
                 for which in ('perturbed', 'full'):
                     rho.getAllData()[:] = poison
                     n_eval += 1
+                    d_ = dens_first if call == 2 else dens
                     if which == 'perturbed':
-                        dens.getPerturbedRho(f, rho)
+                        d_.getPerturbedRho(f, rho)
                         want = np.einsum('ijkl,l->ijk', F - feq[:, None, None, :], w)
                     else:
-                        dens.getRho(f, rho)
+                        d_.getRho(f, rho)
                         want = np.einsum('ijkl,l->ijk', F, w)
                     got = rho.getAllData()
                     tol = 64 * EPS * cond * (S.d + 1) * span * max(1e-300, np.abs(F).max() + np.abs(feq).max())
